@@ -81,6 +81,8 @@ class Ctx:
 
     def ok(self, rule: str, what: str) -> None:
         self.obligations.append({"rule": f"{self.prop}/{rule}", "what": what, "ok": True})
+        if os.environ.get("VERIF_TRACE"):
+            print(f"  ok {self.prop}/{rule}: {what}", file=sys.stderr)
 
     def bad(self, rule: str, key: str, message: str, loc: str = "", witness: T.Any = None,
             path: T.Optional[T.List[str]] = None, what: T.Optional[str] = None) -> None:
@@ -222,7 +224,8 @@ def _normalisation_note(ctx: "Ctx") -> T.Dict[str, T.Any]:
             "literal_loops_unrolled": normalise.LAST_RUN.get("literal_loops_unrolled", 0),
             "kwargs_splats_expanded": normalise.LAST_RUN.get("kwargs_splats_expanded", 0),
             "bool_returns_expanded": normalise.LAST_RUN.get("bool_returns_expanded", 0),
-            "accumulated_replace_expanded": normalise.LAST_RUN.get("accumulated_replace_expanded", 0)}
+            "accumulated_replace_expanded": normalise.LAST_RUN.get("accumulated_replace_expanded", 0),
+            "compare_chains_split": normalise.LAST_RUN.get("compare_chains_split", 0)}
 
 
 def write_evidence(ctx: Ctx, mod: T.Any, wall: float, known_matched: T.List[str], new: T.List[Finding],
